@@ -690,8 +690,15 @@ fn thread_stat(tid: i32) -> Option<(char, u64)> {
     Some((state, utime + stime))
 }
 
+/// Stuck actors seen in this process so far: once the code under test has been shown to block
+/// or spin, later occurrences are called after a much shorter observation (a check that meets
+/// the same hang in hundreds of scenarios must still end in reasonable time).
+static STUCK_SEEN: std::sync::atomic::AtomicU32 = std::sync::atomic::AtomicU32::new(0);
+
 impl Watchdog {
     fn sample(&mut self, tid: i32, waited: Duration) -> DogVerdict {
+        let seen_before = STUCK_SEEN.load(Ordering::SeqCst) >= 2;
+        let (spin_secs, asleep_secs) = if seen_before { (2, 2) } else { (10, 10) };
         const HARD_CAP_SECS: u64 = 1800;
         if waited > Duration::from_secs(HARD_CAP_SECS) {
             panic!("MACHINERY: an actor iteration did not end within {HARD_CAP_SECS} s of real time and the thread is neither asleep nor burning CPU");
@@ -702,14 +709,16 @@ impl Watchdog {
         };
         let ticks_per_sec = unsafe { libc::sysconf(libc::_SC_CLK_TCK) }.max(1) as u64;
         let first = *self.first_cpu.get_or_insert(cpu);
-        if (cpu - first) / ticks_per_sec >= 30 {
+        if (cpu - first) / ticks_per_sec >= spin_secs {
+            STUCK_SEEN.fetch_add(1, Ordering::SeqCst);
             return DogVerdict::Stuck(format!("spinning: {} s of CPU inside one iteration", (cpu - first) / ticks_per_sec));
         }
         if matches!(state, 'S' | 'D') {
             match self.asleep_since {
                 Some((since, c)) if c == cpu => {
-                    if waited.saturating_sub(since) >= Duration::from_secs(10) {
-                        return DogVerdict::Stuck(format!("asleep (state {state}) for 10 s without consuming CPU"));
+                    if waited.saturating_sub(since) >= Duration::from_secs(asleep_secs) {
+                        STUCK_SEEN.fetch_add(1, Ordering::SeqCst);
+                        return DogVerdict::Stuck(format!("asleep (state {state}) for {asleep_secs} s without consuming CPU"));
                     }
                 }
                 _ => self.asleep_since = Some((waited, cpu)),
@@ -1015,11 +1024,12 @@ impl World {
                     .wait_timeout(b, Duration::from_millis(200))
                     .unwrap_or_else(|e| e.into_inner());
                 b = g;
-                if started.elapsed() > Duration::from_secs(ITERATION_WATCHDOG_SECS) && !(b.phase == Phase::Parked || b.phase == Phase::Exited) {
+                let trigger = if STUCK_SEEN.load(Ordering::SeqCst) >= 2 { 1 } else { ITERATION_WATCHDOG_SECS };
+                if started.elapsed() > Duration::from_secs(trigger) && !(b.phase == Phase::Parked || b.phase == Phase::Exited) {
                     // The actor has not come back from one loop iteration for a long (real) time.
                     // Real time alone proves nothing on a loaded machine, so the verdict comes from
                     // the thread itself: asleep without consuming CPU for 10 s = blocked inside the
-                    // library (e.g. in a channel send); 30 s of CPU inside one iteration = spinning.
+                    // library (e.g. in a channel send); 10 s of CPU inside one iteration = spinning.
                     // A thread that is merely starved keeps being waited for.
                     match dog.sample(sync.tid.load(Ordering::SeqCst), started.elapsed()) {
                         DogVerdict::KeepWaiting => continue,
